@@ -1,10 +1,10 @@
-import ActixNet.Lemmas.SrvSpin
+import ActixNet.Lemmas.SrvFuel
 /-!
 # C08 — a faulted worker is detected, bypassed and replaced; its connection is re-routed
 
 Over `ActixNet.Srv` with worker deaths (`die`) and replacement (`restart`) allowed at every yield
-point.  (First instalment: the per-function theorems; the whole-history no-panic/no-spin invariant
-is stated at the end with what is proved of it so far.)
+point.  First the per-function theorems, then the whole-history statements: no panic, no spin, no
+fault of any kind, for every history (`accept_thread_never_fails`).
 -/
 namespace ActixNet.C08
 open ActixNet ActixNet.Srv
@@ -137,6 +137,15 @@ unavailable while a bit without a handle stays set) is unreachable. -/
 theorem accept_one_never_spins (cfg : Cfg) (ok : CfgOk cfg) (kinds : List Kind) (ops : List Op) :
     (run cfg (init cfg kinds) ops).fault ≠ some .spinAcceptOne :=
   run_nospinAO ok ops _ (init_np cfg kinds) (by unfold NoSpinAO; simp [init])
+
+/-- **The accept thread never fails at all** — for EVERY history: besides the panics and the
+`accept_one` search, the `loop { accept() }` of `Accept::accept` and the `while let Some(..) =
+pop_front()` of `handle_waker` terminate for every finite amount of concurrent activity (every
+schedule): each round uses up a queued connection / injected error / interest or a piece of the
+schedule (`Lemmas/SrvFuel.lean`).  Hence no sticky fault of the model is ever raised. -/
+theorem accept_thread_never_fails (cfg : Cfg) (ok : CfgOk cfg) (kinds : List Kind) (ops : List Op) :
+    (run cfg (init cfg kinds) ops).fault = none :=
+  run_fault_none ok kinds ops
 
 /-- in every reachable state every set availability bit belongs to a worker that has a handle (so
 `accept_one`'s search always finds it) — the invariant whose violation was the defect fixed in /repo -/
